@@ -446,6 +446,8 @@ class Program:
             p = work.pop()
             if p in seen or p not in self.bodies:
                 continue
+            if p in getattr(self, "awaited_inlined", ()) and p not in roots:
+                continue        # the body of an awaited new async helper: part of its callers now (hv/inline.py)
             seen.add(p)
             work.extend(self.local_callees(self.bodies[p]))
             if extra_edges:
